@@ -34,7 +34,7 @@ RULE = ('(a) packet sequences with 1/3/5/9-byte type and length numbers and empt
         'and as-is, to both front-ends in empty and busy states, followed by bystander completion; (c) UDP datagrams; '
         'distinct = (sub-check, front-end, state, packet kind, mutation kind, framing mode) resp. (stream id, cut set); '
         'non-trivial = every case'
-        '; finished-window scenarios (Nack/Data in the loop step in which the Interest was cancelled / timed out); handler invocations judged per delivered packet')
+        '; finished-window scenarios (Nack/Data in the loop step in which the Interest was cancelled / timed out); handler invocations judged per delivered packet; chunks and EOF made readable with and without the loop running in between (burst / EOF with the last chunk)')
 
 P1 = [rc.comp(8, b'p'), rc.comp(8, b'one')]
 P2 = [rc.comp(8, b'p'), rc.comp(8, b'two')]
